@@ -73,6 +73,21 @@ class PathInfo:
                 out.append(("bool", canon(ds), truth, ds))
             else:
                 out.append(("int", canon(ds), tuple(sorted(vals)) if not other else ("otherwise",) + tuple(sorted(listed)), ds))
+        # the results of two different calls are two values even when the calls read alike (`peek()` before and after a token
+        # was consumed): later call sites of one canonical subject get an ordinal, so that their decisions are neither merged
+        # nor played off against each other as contradictory
+        sites = {}
+        for i, d in enumerate(out):
+            if d[0] not in ("variant", "bool", "int"):
+                continue
+            subj = terms.strip(d[3])
+            if subj and subj[0] == "call" and len(subj) > 3 and isinstance(subj[3], int):
+                seen_sites = sites.setdefault(d[1], [])
+                if subj[3] not in seen_sites:
+                    seen_sites.append(subj[3])
+                k = seen_sites.index(subj[3])
+                if k:
+                    out[i] = (d[0], "%s#%d" % (d[1], k + 1), d[2], d[3])
         self._dec = out
         return out
 
